@@ -148,7 +148,12 @@ func layoutSource(n int, ctx string, layout []string) string {
 		case "B":
 			b.WriteString("\n")
 		case "C":
-			fmt.Fprintf(&b, "%s// c%d\n", ind, L)
+			if L%3 == 2 {
+				// ordinary words that start like a compiler directive ("// go: ..." with a space is none)
+				fmt.Fprintf(&b, "%s// go: c%d\n", ind, L)
+			} else {
+				fmt.Fprintf(&b, "%s// c%d\n", ind, L)
+			}
 		case "G":
 			fmt.Fprintf(&b, "%s// +t=v%d\n", ind, L)
 		case "K":
